@@ -1,3 +1,92 @@
-(* C10 property theorems: ONLY statements closed by `exact`, each followed by Print Assumptions. *)
+(* C10 — property theorems.  ONLY statements, each closed by `exact <lemma>` and followed by
+   Print Assumptions.  Model: C10_Model.v (literal transcription of dune/common/bigunsignedint.hh),
+   Spec: C10_Spec.v (exact arithmetic modulo 2^w on N).  Quantification: EVERY digit count n
+   (hence every width k, multiple of 16 or not, below or above 64 bits), EVERY operand.
+   c10_wf n a  :=  a has n digits, each below 2^16  (the representation invariant, itself proved
+   to be preserved by every operation: the `c10_wf n (…)` conjuncts). *)
 From Coq Require Import List NArith ZArith Bool.
-From DuneV Require Import Params_gen C10_Model C10_Spec.
+From DuneV Require Import Params_gen C10_Model C10_Spec C10_Proofs.
+Import ListNotations.
+Local Open Scope N_scope.
+
+(* + - * ++ are arithmetic modulo 2^w.  n2 is the digit count of the bigunsignedint<2k> temporary of
+   operator*=; the theorem holds for every n2 >= n, and n <= ndigits(2k) is C10_mul_temp_wide_enough. *)
+Theorem C10_ring : forall n2 n a b, c10_wf n a -> c10_wf n b -> (n <= n2)%nat ->
+  same_val n (c10_add a b) (c10_spec_binop n OpAdd (c10_val a) (c10_val b)) /\
+  same_val n (c10_sub a b) (c10_spec_binop n OpSub (c10_val a) (c10_val b)) /\
+  same_val n (c10_mul n2 a b) (c10_spec_binop n OpMul (c10_val a) (c10_val b)) /\
+  c10_wf n (c10_incr a) /\ c10_val (c10_incr a) = (c10_val a + 1) mod 2 ^ c10_spec_width n.
+Proof. exact P_ring. Qed.
+Print Assumptions C10_ring.
+
+Theorem C10_mul_temp_wide_enough : forall k, (c10_ndigits k <= c10_ndigits (2 * k))%nat.
+Proof. exact ndigits_double. Qed.
+Print Assumptions C10_mul_temp_wide_enough.
+
+(* division and remainder: a zero divisor is reported (both operators); otherwise, with fuel exceeding the
+   number of subtractions the code performs, the loops terminate with quotient and remainder *)
+Theorem C10_divmod : forall n a b fuel, c10_wf n a -> c10_wf n b ->
+  (c10_val b = 0 -> c10_div fuel a b = C10_MathError /\ c10_mod fuel a b = C10_MathError) /\
+  (c10_val b <> 0 -> (N.to_nat (c10_val a / c10_val b) < fuel)%nat ->
+     exists q r, c10_div fuel a b = C10_Ok q /\ c10_mod fuel a b = C10_Ok r /\
+       same_val n q (c10_spec_binop n OpDiv (c10_val a) (c10_val b)) /\
+       same_val n r (c10_spec_binop n OpMod (c10_val a) (c10_val b))).
+Proof. exact P_divmod. Qed.
+Print Assumptions C10_divmod.
+
+(* why the zero test in operator%= is needed: without it the subtraction loop exhausts every fuel
+   (this was the behaviour of the code before fix fda2e4a) *)
+Theorem C10_mod_zero_diverges_without_test : forall n a x fuel, c10_wf n a -> c10_wf n x -> c10_val x = 0 ->
+  c10_mod_loop fuel a x = C10_OutOfFuel.
+Proof. exact P_mod_zero_old_code_diverges. Qed.
+Print Assumptions C10_mod_zero_diverges_without_test.
+
+Theorem C10_bitwise : forall n a b, c10_wf n a -> c10_wf n b ->
+  same_val n (c10_and a b) (c10_spec_binop n OpAnd (c10_val a) (c10_val b)) /\
+  same_val n (c10_or a b) (c10_spec_binop n OpOr (c10_val a) (c10_val b)) /\
+  same_val n (c10_xor a b) (c10_spec_binop n OpXor (c10_val a) (c10_val b)) /\
+  c10_wf n (c10_not a) /\ c10_val (c10_not a) = 2 ^ c10_spec_width n - 1 - c10_val a.
+Proof. exact P_bitwise. Qed.
+Print Assumptions C10_bitwise.
+
+(* shifts by any amount below w *)
+Theorem C10_shift : forall n a s, c10_wf n a -> s < c10_spec_width n ->
+  c10_wf n (c10_shl a s) /\ c10_val (c10_shl a s) = c10_spec_shift n true (c10_val a) s /\
+  c10_wf n (c10_shr a s) /\ c10_val (c10_shr a s) = c10_spec_shift n false (c10_val a) s.
+Proof. exact P_shift. Qed.
+Print Assumptions C10_shift.
+
+(* all six comparisons decide the order of the represented values; equal values have equal digit arrays
+   (hence equal hashes: hash_value hashes exactly the digit array) *)
+Theorem C10_compare : forall n a b, c10_wf n a -> c10_wf n b ->
+  c10_lt a b = c10_spec_cmp CmpLt (c10_val a) (c10_val b) /\ c10_le a b = c10_spec_cmp CmpLe (c10_val a) (c10_val b) /\
+  c10_gt a b = c10_spec_cmp CmpGt (c10_val a) (c10_val b) /\ c10_ge a b = c10_spec_cmp CmpGe (c10_val a) (c10_val b) /\
+  c10_eq a b = c10_spec_cmp CmpEq (c10_val a) (c10_val b) /\ c10_ne a b = c10_spec_cmp CmpNe (c10_val a) (c10_val b) /\
+  (c10_val a = c10_val b -> a = b).
+Proof. exact P_compare. Qed.
+Print Assumptions C10_compare.
+
+(* construction from a built-in unsigned (uintmax_t: below 2^64) and numeric_limits *)
+Theorem C10_construct_limits : forall n x, x < 2 ^ 64 ->
+  c10_wf n (c10_assign n x) /\ c10_val (c10_assign n x) = x mod 2 ^ c10_spec_width n /\
+  c10_wf n (c10_max n) /\ c10_val (c10_max n) = 2 ^ c10_spec_width n - 1 /\
+  c10_wf n (c10_min n) /\ c10_val (c10_min n) = 0 /\ c10_limit_digits n = c10_spec_width n.
+Proof. exact P_construct. Qed.
+Print Assumptions C10_construct_limits.
+
+(* touint: the low 32 bits for every width, one-digit widths included *)
+Theorem C10_touint : forall n a, c10_wf n a -> c10_touint a = c10_val a mod 2 ^ 32.
+Proof. exact P_touint. Qed.
+Print Assumptions C10_touint.
+
+Theorem C10_value_range : forall n a, c10_wf n a -> c10_val a < 2 ^ c10_spec_width n.
+Proof. exact P_value_range. Qed.
+Print Assumptions C10_value_range.
+
+(* non-vacuity: concrete non-trivial operands satisfy the hypotheses and exercise carries *)
+Example C10_nonvacuous :
+  c10_wf 2 [65535; 65535] /\ c10_wf 2 [1; 0] /\ c10_add [65535; 65535] [1; 0] = [0; 0] /\
+  c10_mul 4 [65535; 65535] [65535; 65535] = [1; 0] /\ c10_shl [65535; 1] 17 = [0; 65534] /\
+  c10_mod 10 [7; 0] [0; 0] = C10_MathError /\ c10_div 10 [7; 1] [2; 0] = C10_OutOfFuel.
+Proof. exact C10_nonvacuous_proof. Qed.
+Print Assumptions C10_nonvacuous.
